@@ -43,6 +43,9 @@ every index of `m.indices` lies inside `prev`, `next`, `weights`, `vehicleRates`
 `networkRates`.  `traversalTotal` / `accessTotal` are the values `traversal_cost` / `access_cost`
 compute just before `Cost::enforce_strictly_positive`.
 -/
+import Compass.Gen.Decisions
+import Compass.Proofs.Num
+import Compass.Model.Cost
 import Compass.Proofs.Cost
 import Compass.Proofs.Graph
 import Compass.Model.CostIO
@@ -1636,6 +1639,32 @@ example : ((NetworkCostRateBuilder.edgeLookup (CsvFile.mk false 0 true ([] : Lis
       (fun x => decide (x ≠ 1))).isNone = true
     ∧ ((NetworkCostRateBuilder.edgeLookup (CsvFile.mk true 0 false ([] : List (Row (Nat × ℚ))))).build
       (fun _ => true)).isNone = true := by decide +kernel
+
+end C07
+end Compass
+
+namespace Compass
+namespace C07
+open Src
+
+/-! ### Source decision ties
+
+The relational operators at the named comparison sites of the Rust source are re-extracted on every run
+by `tools/gen_model.py` into `Compass/Gen/Decisions.lean` (`Src.<site> : Src.Rel`).  Each theorem below
+says that the hand-written model decides at that site by exactly the operator the source has there
+(`Rel.nat` / `Rel.int` / `Rel.num` interpret the extracted operator; an unrecognised line is `none`).  A
+source change that turns `<` into `<=`, `>` into `>=`, … at a site changes the generated constant and this
+proof obligation stops checking, whether or not a generated case lands on the tie. -/
+
+theorem src_cost_strictly_positive {α : Type} [Field α] [LinearOrder α] [IsStrictOrderedRing α] [Lit α] [LawfulLit α] (c : α) :
+    some (enforceStrictlyPositive c) =
+      (cost_strictly_positive.num c (zero : α)).map fun b => if b then minCost else c := by
+  simp [enforceStrictlyPositive, cost_strictly_positive, Rel.num]
+
+theorem src_cost_non_negative {α : Type} [Field α] [LinearOrder α] [IsStrictOrderedRing α] [Lit α] [LawfulLit α] (c : α) :
+    some (enforceNonNegative c) =
+      (cost_non_negative.num c (zero : α)).map fun b => if b then (zero : α) else c := by
+  simp [enforceNonNegative, cost_non_negative, Rel.num]
 
 end C07
 end Compass
